@@ -57,6 +57,9 @@ CHECKS = {
     "C15": ("exploration", "runtime monitoring: hostile datagram streams against a live instance with an event-loop exception monitor, state-unchanged assertion for oversized datagrams and two liveness canaries (query answered, announcement delivered)",
             "Streams of 20..400 random, mutated, adversarially compressed, invalid-UTF-8, oversized and valid datagrams from mDNS and legacy ports (multicast and unicast delivery, both layouts) interleaved with clock advances hit a host with registered services, a browser and lookups in progress; any exception reaching datagram_received's caller or the loop exception handler is a violation; canaries afterwards prove the instance still works.",
             "Canary names are unique per run.", "2/C15"),
+    "C16": ("exploration", "runtime monitoring: metamorphic differential monitor - the same history executed without duplicates, with every non-QU datagram duplicated, and with every datagram duplicated, under identical seeds; wire traces and per-listener callback logs compared event by event",
+            "Traffic histories of queries of every kind and responses with new/refreshed/goodbye/flush records are replayed three times in virtual time; the run duplicating only datagrams without a QU question must be identical to the reference; the fully duplicated run may only add unicast replies emitted while a QU copy is processed. First divergence is classified and attributed (non_qu_duplicate vs qu_copy_processed).",
+            "Duplicates are delivered in the same loop callback as the original; RNG draws during the copy come from a side stream. One known finding (F8) is listed in known_findings.json.", "2/C16"),
 }
 
 NOT_YET = {}
